@@ -49,3 +49,12 @@ Theorem C06_multi_refuted_with_concurrency :
   m_return 4 dss 0 = 0 /\ map (fun ds => done_at ds (m_return 4 dss 0)) dss = [0%nat; 0%nat].
 Proof. exact multi_close_refuted_with_concurrency. Qed.
 Print Assumptions C06_multi_refuted_with_concurrency.
+
+(* the size of F7, for every limit >= 1: when close() returns, FEWER THAN `limit` accepted events are still unprocessed - whatever the
+   workload, the timeout setting and the instant of the call (limit 1: none, the first theorem above) *)
+Theorem C06_close_leaves_fewer_than_limit :
+  forall limit tau errdelay its t_close, (1 <= limit)%nat ->
+    let ds := run limit tau errdelay its in
+    (length its < done_at ds (t_drop limit ds t_close) + limit)%nat.
+Proof. exact close_leaves_fewer_than_limit. Qed.
+Print Assumptions C06_close_leaves_fewer_than_limit.
